@@ -674,6 +674,8 @@ def join_states(a, b, widen=False, thresholds=(), templates=False, template_vars
     return out
 
 
+INVARIANT_VARS = []      # heap scalars whose pairwise order is always tried at joins (set by the analysis that owns an object invariant)
+
 _STATUS_RANK = {"clean": 0, "restorable": 1, "appended": 2, "dirty": 3}
 
 
@@ -682,9 +684,10 @@ def _heap_templates(a, b, extra_vars=()):
     makes facts that are only *implied* on each side (e.g. filled <= cap) explicit so the join keeps them"""
     va = {v for v in a.cons.all_vars() if v[0][0] in ("H", "G")}
     vb = {v for v in b.cons.all_vars() if v[0][0] in ("H", "G")}
-    vs = sorted(va | vb, key=repr)
+    vs = sorted(va | vb | set(INVARIANT_VARS), key=repr)
+    vs = [v for v in vs if a.leaf(v) is not None and b.leaf(v) is not None]
     if len(vs) > 8:
-        vs = vs[:8]
+        vs = [v for v in vs if v in INVARIANT_VARS] + [v for v in vs if v not in INVARIANT_VARS][:8]
     out = []
     for x in vs:
         for y in vs:
